@@ -140,15 +140,10 @@ class FakeGroup(Model):
         return default if n is None else n
 
     def flush(self, fr=None):
-        self.root_file().flushes += 1
         return None
 
     def close(self, fr=None):
-        self.root_file().open = False
         return None
-
-    def root_file(self):
-        return self
 
     def content(self):
         return {k: v.content() for k, v in sorted(self.children.items())}
@@ -160,15 +155,131 @@ class FakeFile(FakeGroup):
         self.path = path
         self.flushes = 0
         self.open = True
+        self.flushed = None
 
     def root_file(self):
         return self
 
+    def flush(self, fr=None):
+        self.flushes += 1
+        self.flushed = copy.deepcopy(self.children)
+
+    def close(self, fr=None):
+        self.flush()
+        self.open = False
+
+
+class FakeTextFile(Model):
+    """a text file opened with the builtin open(): append / read-write with a position, as far as the XYZ writer and its truncation helper use it"""
+    def __init__(self, fs, path, mode):
+        self.fs, self.path, self.mode = fs, path, mode
+        self.pos = len(fs.texts[path]) if "a" in mode else 0
+        self.closed = False
+
+    def write(self, fr, text):
+        cur = self.fs.texts[self.path]
+        if "a" in self.mode:
+            self.fs.texts[self.path] = cur + str(text)
+            self.pos = len(self.fs.texts[self.path])
+        else:
+            self.fs.texts[self.path] = cur[:self.pos] + str(text) + cur[self.pos + len(str(text)):]
+            self.pos += len(str(text))
+        return len(str(text))
+
+    def readline(self, fr):
+        cur = self.fs.texts[self.path]
+        j = cur.find("\n", self.pos)
+        end = len(cur) if j < 0 else j + 1
+        line = cur[self.pos:end]
+        self.pos = end
+        return line
+
+    def read(self, fr, n=-1):
+        cur = self.fs.texts[self.path]
+        out = cur[self.pos:] if n is None or int(n) < 0 else cur[self.pos:self.pos + int(n)]
+        self.pos += len(out)
+        return out
+
+    def tell(self, fr):
+        return self.pos
+
+    def seek(self, fr, off, whence=0):
+        self.pos = int(off) if int(whence) == 0 else (self.pos + int(off) if int(whence) == 1 else len(self.fs.texts[self.path]) + int(off))
+        return self.pos
+
+    def truncate(self, fr, size=None):
+        size = self.pos if size is None else int(size)
+        self.fs.texts[self.path] = self.fs.texts[self.path][:size]
+        self.fs.texts_flushed[self.path] = self.fs.texts[self.path]
+        return size
+
+    def flush(self, fr=None):
+        self.fs.texts_flushed[self.path] = self.fs.texts[self.path]
+
+    def close(self, fr=None):
+        self.flush()
+        self.closed = True
+
+    def truncate_flush(self):
+        self.fs.texts_flushed[self.path] = self.fs.texts[self.path]
+
+
+class FakeStringIO(Model):
+    def __init__(self):
+        self.buf = ""
+
+    def write(self, fr, t):
+        self.buf += str(t)
+
+    def getvalue(self, fr):
+        return self.buf
+
+
+def _plain_ckpt(obj):
+    """what torch.save persists of an interpreted checkpoint: driver stand-ins (callables) cannot be pickled and are dropped from SimpleNamespaces"""
+    if isinstance(obj, dict):
+        return {k: _plain_ckpt(v) for k, v in obj.items()}
+    if isinstance(obj, (list, tuple)):
+        return type(obj)(_plain_ckpt(v) for v in obj)
+    if isinstance(obj, types.SimpleNamespace) and not isinstance(obj, Instance):
+        ns = types.SimpleNamespace(**{k: _plain_ckpt(v) for k, v in vars(obj).items() if not callable(v)})
+        ns.to = lambda fr, *a, **k: ns
+        return ns
+    return obj
+
 
 class FileSystem:
-    """path -> FakeFile; survives a crash"""
+    """path -> FakeFile / text; `disk` holds what torch.save / os.replace published; survives a crash.  flush() of a file records what a hard kill would leave behind."""
     def __init__(self):
         self.files = {}
+        self.texts = {}
+        self.texts_flushed = {}
+        self.disk = {}
+
+    def flushed_snapshot(self):
+        """the file system as a hard kill at this instant leaves it in the worst case: every file as of its last flush / close"""
+        c = FileSystem()
+        c.disk = copy.deepcopy(self.disk)
+        for p, f in self.files.items():
+            g = copy.deepcopy(f)
+            if f.flushed is not None:
+                g.children = copy.deepcopy(f.flushed)
+            c.files[p] = g
+        for p, t in self.texts.items():
+            c.texts[p] = self.texts_flushed.get(p, "")
+            c.texts_flushed[p] = c.texts[p]
+        return c
+
+    def open_text(self, path, mode="r", **kw):
+        path = str(path)
+        if "w" in mode:
+            self.texts[path] = ""
+        elif path not in self.texts:
+            if "a" in mode:
+                self.texts[path] = ""
+            else:
+                raise Raised(f"FileNotFoundError: {path}")
+        return FakeTextFile(self, path, mode)
 
     def opener(self, path, mode="r", **kw):
         path = str(path)
@@ -190,7 +301,9 @@ class FileSystem:
         return copy.deepcopy(self)
 
     def content(self):
-        return {p: f.content() for p, f in sorted(self.files.items())}
+        d = {p: f.content() for p, f in sorted(self.files.items())}
+        d.update({p: t for p, t in sorted(self.texts.items())})
+        return d
 
 
 # --------------------------------------------------------------------------------------------------------------------------------------------
@@ -220,10 +333,30 @@ def make_molecule(step):
         species=SPECIES.copy(), nmol=nmol, molsize=molsize, num_atoms=(SPECIES > 0).sum(axis=1),
         coordinates=stamp("coordinates", step), velocities=stamp("velocities", step), force=stamp("force", step), acc=stamp("acc", step),
         mass_inverse=np.full((nmol, molsize, 1), sp.Integer(1), dtype=object), mass=np.full((nmol, molsize, 1), sp.Integer(1), dtype=object),
-        norb=np.array([10, 6, 2], dtype=np.int64), nocc=np.array([4, 3, 1], dtype=np.int64), active_state=0, dm=None, cis_amplitudes=None,
+        norb=np.array([10, 6, 2], dtype=np.int64), nocc=np.array([4, 3, 1], dtype=np.int64), active_state=0, dm=np.full((nmol, 2, 2), sp.Integer(1), dtype=object), cis_amplitudes=None,
         e_gap=scalar_stamp(7, step), dipole=np.array([[sp.Integer(8 * 10 ** 6 + step * 1000 + m * 100 + c) for c in range(3)] for m in range(nmol)], dtype=object),
-        Etot=scalar_stamp(9, step), verbose=True, const=types.SimpleNamespace(do_timing=False, timing={"MD": []}), all_forces=None, old_mos=None)
+        Etot=scalar_stamp(9, step), verbose=True, const=types.SimpleNamespace(do_timing=False, timing={"MD": []}, label=["X", "H", "He", "Li", "Be", "B", "C", "N", "O"]),
+        all_forces=None, old_mos=None)
+    _excited_fields(mol, step)
     return mol
+
+
+NROOTS = 2
+
+
+def _excited_fields(mol, step):
+    nmol = mol.nmol
+    nmax = int(mol.norb.max())
+    mol.cis_energies = np.array([[sp.Integer(11 * 10 ** 6 + step * 1000 + m * 100 + r) for r in range(NROOTS)] for m in range(nmol)], dtype=object)
+    mol.transition_dipole = np.array([[[sp.Integer(12 * 10 ** 6 + step * 1000 + m * 100 + r * 10 + c) for c in range(3)] for r in range(NROOTS)] for m in range(nmol)], dtype=object)
+    mol.oscillator_strength = np.array([[sp.Integer(13 * 10 ** 6 + step * 1000 + m * 100 + r) for r in range(NROOTS)] for m in range(nmol)], dtype=object)
+    tdm = np.empty((nmol, NROOTS, nmax, nmax), dtype=object)
+    for m in range(nmol):
+        for r in range(NROOTS):
+            for a in range(nmax):
+                for b in range(nmax):
+                    tdm[m, r, a, b] = sp.Integer(14 * 10 ** 6 + step * 1000 + m * 100 + r * 50 + (a * nmax + b) % 50)
+    mol.transition_density_matrices = tdm
 
 
 def set_step(mol, step):
@@ -233,26 +366,56 @@ def set_step(mol, step):
     mol.dipole = np.array([[sp.Integer(8 * 10 ** 6 + step * 1000 + m * 100 + c) for c in range(3)] for m in range(mol.nmol)], dtype=object)
     mol.Etot = scalar_stamp(9, step)
     mol._step = step
+    _excited_fields(mol, step)
 
 
 class Pipeline:
-    """one interpreted run of an engine's `run` with stand-ins for everything that is not output"""
+    """interpreted runs of an engine's `run` / `run_from_checkpoint` with stand-ins for everything that is not output or checkpoint plumbing"""
     def __init__(self, repo, cls_name="Molecular_Dynamics_Basic", rel="seqm/MolecularDynamics.py"):
         self.repo, self.cls_name, self.rel = repo, cls_name, rel
         self.mod = repo.mod(rel)
         if cls_name not in self.mod.classes:
             raise AnalysisError(f"class {cls_name} not found in {rel}")
 
-    def run(self, output, steps, step_offset=0, fs=None, crash_before_step=None, checkpoint_log=None, ctor_kwargs=None):
-        """interpret <cls>(seqm_parameters, timestep, Temp=0, step_offset, output).run(molecule, steps); returns (fs, events).
-        crash_before_step=j: the process dies at the start of loop iteration i == j (after step j has been completed and written)."""
-        fs = fs if fs is not None else FileSystem()
-        events = {"checkpoints": [], "calls": []}
-        mol = make_molecule(step_offset)
-        mol._step = step_offset
+    def _session(self, fs, crash_before_step, start_step, stub_checkpoint):
+        events = {"checkpoints": [], "calls": [], "screen": [], "_line": "", "published": []}
+        state = {"mol": None}
+
+        def printer(*a, end="\n", **k):
+            events["_line"] += " ".join(str(x) for x in a) + end
+            while "\n" in events["_line"]:
+                line, events["_line"] = events["_line"].split("\n", 1)
+                events["screen"].append(line)
+
+        def torch_save(obj, path, **k):
+            fs.disk[str(path)] = copy.deepcopy(_plain_ckpt(obj))
+
+        def os_replace(a, b):
+            fs.disk[str(b)] = fs.disk.pop(str(a))
+            ck = fs.disk[str(b)]
+            events["published"].append((ck.get("step_done") if isinstance(ck, dict) else None, fs.snapshot(), fs.flushed_snapshot()))
+
+        def molecule_ctor(const, seqm_parameters, coordinates, species, *a, **k):
+            m = make_molecule(start_step)
+            m.coordinates = np.asarray(coordinates).astype(object)
+            m.to = lambda fr, *a2, **k2: m
+            state["mol"] = m
+            return m
         stubs = {
             "h5py.File": lambda path, mode="r", **k: fs.opener(path, mode, **k),
-            "_rotate_existing": lambda *a, **k: None,
+            "open": lambda path, mode="r", *a, **k: fs.open_text(path, mode),
+            "os.path.exists": lambda path: str(path) in fs.texts or str(path) in fs.files or str(path) in fs.disk,
+            "os.path.dirname": lambda path: "", "os.close": lambda *a: None, "os.remove": lambda path: fs.disk.pop(str(path), None) and None,
+            "tempfile.mkstemp": lambda **k: (0, ".tmp_ckpt_%d.pt" % len(events["published"])),
+            "torch.save": torch_save, "os.replace": os_replace,
+            "torch.load": lambda path, **k: copy.deepcopy(fs.disk[str(path)]) if str(path) in fs.disk else (_ for _ in ()).throw(Raised(f"FileNotFoundError: {path}")),
+            "torch.random.get_rng_state": lambda *a: "rng-cpu", "torch.cuda.get_rng_state_all": lambda *a: None,
+            "torch.random.set_rng_state": lambda *a: None, "torch.cuda.set_rng_state_all": lambda *a: None, "torch.set_default_dtype": lambda *a: None,
+            "Molecule": molecule_ctor,
+            "StringIO": lambda *a: FakeStringIO(),
+            "print": printer,
+            "_rotate_existing": lambda path, *a, **k: (fs.texts.pop(str(path), None), fs.files.pop(str(path), None)) and None,
+            "np.empty": lambda shape, **k: np.full(tuple(int(x) for x in (shape if isinstance(shape, (tuple, list)) else (shape,))), UNSET, dtype=object),
             "datetime.now": lambda *a, **k: sp.Integer(0),
             "time.time": lambda *a, **k: sp.Integer(0),
             "_to_np": lambda x: (x.copy() if isinstance(x, np.ndarray) else x),
@@ -264,35 +427,68 @@ class Pipeline:
         }
         I = NpSym(self.repo, stubs=stubs, max_steps=5_000_000)
         I.construct_instances = True
-        kw = dict(timestep=sp.Rational(1, 2), Temp=sp.Integer(0), step_offset=step_offset, output=copy.deepcopy(output))
-        kw.update(ctor_kwargs or {})
-        md = I.construct(ClassRef(self.mod, self.mod.classes[self.cls_name]), [{"method": "AM1"}], kw)
 
         def integrator_step(fr, i, molecule, *a, **k):
             i = int(i)
             if crash_before_step is not None and i == crash_before_step:
                 raise Crash(f"killed before step {i}")
+            if events.get("record_iterations"):
+                # what a kill at the start of this iteration leaves behind: files as written / as of their last flush
+                events.setdefault("at_iter", {})[i] = (fs.snapshot(), fs.flushed_snapshot())
             set_step(molecule, i + 1)
             events["calls"].append(i)
 
-        md._do_integrator_step = integrator_step
-        md.set_dof = lambda fr, *a, **k: None
-        md.initialize_velocity = lambda fr, m, *a, **k: m.velocities
-        md._zero_com = lambda fr, *a, **k: None
-        md._output_to_screen = lambda fr, *a, **k: None
-        md._kinetic_energy = lambda fr, m: scalar_stamp(5, m._step)
-        md._calc_temperature = lambda fr, ek: np.array([x + 500000 for x in ek], dtype=object)
-        md._thermo_potential = lambda fr, m: scalar_stamp(6, m._step)
-        md._print_hop_log = None
+        def hook(obj):
+            from .npsym import _MISSING, _b_getattr
+            if I.class_attribute(obj._npsym_class[0], obj._npsym_class[1], "_do_integrator_step", obj, default=None) is None:
+                return
+            obj._do_integrator_step = integrator_step
+            obj.set_dof = lambda fr, *a, **k: None
+            obj.initialize_velocity = lambda fr, m, *a, **k: m.velocities
+            obj._zero_com = lambda fr, *a, **k: None
+            obj._kinetic_energy = lambda fr, m: scalar_stamp(5, m._step)
+            obj._calc_temperature = lambda fr, ek: np.array([x + 500000 for x in ek], dtype=object)
+            obj._thermo_potential = lambda fr, m: scalar_stamp(6, m._step)
+            obj._print_hop_log = None
+            obj.to = lambda fr, *a, **k: obj
+            if stub_checkpoint:
+                def save_checkpoint(fr, molecule, steps_, reuse_P, remove_com, *, step_done=None, path=None, **k):
+                    events["checkpoints"].append((int(step_done), fs.snapshot()))
+                obj.save_checkpoint = save_checkpoint
+            events["driver"] = obj
+        I.instance_hook = hook
+        return I, events, state
 
-        def save_checkpoint(fr, molecule, steps_, reuse_P, remove_com, *, step_done=None, path=None, **k):
-            events["checkpoints"].append((int(step_done), fs.snapshot()))
-        md.save_checkpoint = save_checkpoint
+    def run(self, output, steps, step_offset=0, fs=None, crash_before_step=None, ctor_kwargs=None, excited=False, stub_checkpoint=True, record_iterations=False):
+        """interpret <cls>(seqm_parameters, timestep, Temp=0, step_offset, output).run(molecule, steps); returns (fs, events).
+        crash_before_step=j: the process dies at the start of loop iteration i == j (after step j has been completed and written)."""
+        fs = fs if fs is not None else FileSystem()
+        I, events, state = self._session(fs, crash_before_step, step_offset, stub_checkpoint)
+        events["record_iterations"] = record_iterations
+        mol = make_molecule(step_offset)
+        mol._step = step_offset
+        kw = dict(timestep=sp.Rational(1, 2), Temp=sp.Integer(0), step_offset=step_offset, output=copy.deepcopy(output))
+        kw.update(ctor_kwargs or {})
+        seqm_parameters = {"method": "AM1"}
+        if excited:
+            seqm_parameters["excited_states"] = {"n_states": NROOTS, "method": "cis"}
+        md = I.construct(ClassRef(self.mod, self.mod.classes[self.cls_name]), [seqm_parameters], kw)
         try:
             I.call_function(self.mod, self.mod.func(self._method("run")), [md, mol, steps])
         except Crash:
             events["crashed"] = True
-        events["driver"] = md
+        return fs, events
+
+    def resume(self, fs, path, crash_before_step=None):
+        """interpret <cls>.run_from_checkpoint(path) on the files and the published checkpoint of `fs`"""
+        ck = fs.disk.get(str(path))
+        if not isinstance(ck, dict) or "step_done" not in ck:
+            raise AnalysisError("resume: no published checkpoint with a step_done entry")
+        I, events, state = self._session(fs, crash_before_step, int(ck["step_done"]), False)
+        try:
+            I.call_function(self.mod, self.mod.func(self._method("run_from_checkpoint")), [str(path)])
+        except Crash:
+            events["crashed"] = True
         return fs, events
 
     def _method(self, name):
@@ -347,6 +543,8 @@ def compare_with_spec(fs, output, steps, prefix_hint=None):
     msgs = []
     want = expected_content(output, steps)
     files = dict(fs.files)
+    if not files and not any(rows for streams in want.values() for rows in streams.values()):
+        return msgs         # every HDF5 stream is switched off: no file is required
     if len(files) != len(want):
         msgs.append(f"{len(files)} HDF5 files for {len(want)} requested molecules ({sorted(files)})")
         return msgs
@@ -419,6 +617,10 @@ def diff_content(a, b, path=""):
             if d:
                 return d
         return None
+    if a != b and isinstance(a, str) and isinstance(b, str):
+        la, lb = a.split("\n"), b.split("\n")
+        k = next((i for i in range(min(len(la), len(lb))) if la[i] != lb[i]), min(len(la), len(lb)))
+        return f"{path} line {k + 1}: `{la[k].strip() if k < len(la) else '<end of file>'}` vs `{lb[k].strip() if k < len(lb) else '<end of file>'}`"
     if a != b:
         if isinstance(a, list) and isinstance(b, list) and len(a) == len(b):
             for i, (x, y) in enumerate(zip(a, b)):
@@ -426,3 +628,306 @@ def diff_content(a, b, path=""):
                     return f"{path}[{i}]: {('unwritten' if x is UNSET else x)!r:.60} vs {('unwritten' if y is UNSET else y)!r:.60}"
         return f"{path}: {str(a)[:60]} vs {str(b)[:60]}"
     return None
+
+
+# --------------------------------------------------------------------------------------------------------------------------------------------
+# further streams of the specification: screen, XYZ, transition-density sub-stream
+# --------------------------------------------------------------------------------------------------------------------------------------------
+def screen_labels(lines):
+    """[(label, first temperature)] of the thermo lines printed to the screen (lines that start with an integer)"""
+    out = []
+    for ln in lines:
+        tok = ln.split()
+        if tok and tok[0].lstrip("-").isdigit():
+            try:
+                out.append((int(tok[0]), float(tok[1]) if len(tok) > 1 else None))
+            except ValueError:
+                out.append((int(tok[0]), None))
+    return out
+
+
+def xyz_frames(text):
+    """[(label, number of atoms, first coordinate)] of an XYZ trajectory"""
+    lines = text.split("\n")
+    out, k = [], 0
+    while k < len(lines) and lines[k].strip():
+        try:
+            n = int(lines[k])
+            tok = lines[k + 1].split()
+            label = int(tok[1])
+            first = float(lines[k + 2].split()[1]) if n > 0 else None
+        except (ValueError, IndexError):
+            out.append(("malformed", k, None))
+            break
+        out.append((label, n, first))
+        k += 2 + n
+    return out
+
+
+def compare_more(fs, events, output, steps, after=0, first_mol=None):
+    """screen / XYZ / tdm against the cadence specification; `after` = step the (resumed) session started from (screen lines exist only for later steps)"""
+    msgs = []
+    pe = int(output.get("print every", 1))
+    molid = output.get("molid", [0])
+    want = [t for t in range(after + 1, steps + 1) if pe > 0 and t % pe == 0]
+    got = screen_labels(events["screen"])
+    if [g[0] for g in got] != want:
+        msgs.append(f"screen: thermo lines are printed for steps {[g[0] for g in got]}, the cadence `print every` = {pe} asks for {want}")
+    elif molid:
+        for lab, tval in got:
+            exp = float(scalar_stamp(5, lab)[molid[0]] + 500000)
+            if tval is not None and abs(tval - exp) > 0.5:
+                msgs.append(f"screen: the line labelled step {lab} does not show that step's temperature of molecule {molid[0]}")
+                break
+    xe = int(output.get("xyz", 0))
+    for mol in molid:
+        nat = int((SPECIES[mol] > 0).sum())
+        cand = [p for p in fs.texts if p.endswith(f".{mol}.xyz")]
+        want = ([0] + [t for t in range(1, steps + 1) if t % xe == 0]) if xe > 0 else []
+        if not want:
+            if any(fs.texts[p].strip() for p in cand):
+                msgs.append(f"xyz: stream is switched off (cadence 0) but {cand} holds frames")
+            continue
+        if len(cand) != 1:
+            msgs.append(f"xyz: no unique trajectory file for molecule {mol} among {sorted(fs.texts)}")
+            continue
+        fr = xyz_frames(fs.texts[cand[0]])
+        if [f[0] for f in fr] != want:
+            msgs.append(f"xyz: trajectory of molecule {mol} holds frames labelled {[f[0] for f in fr]}, the cadence {xe} asks for {want}")
+            continue
+        for lab, n, first in fr:
+            if n != nat or first is None or abs(first - float(stamp("coordinates", lab)[mol, 0, 0])) > 0.5:
+                msgs.append(f"xyz: the frame labelled step {lab} of molecule {mol} does not hold that step's coordinates of the molecule's {nat} real atoms")
+                break
+    h5 = output.get("h5", {})
+    td, d = int(h5.get("transition_density_matrices", 0)), int(h5.get("data", 0))
+    if td > 0 and d > 0 and td % d == 0:
+        for mol in molid:
+            cand = [p for p in fs.files if p.endswith(f".{mol}.h5")]
+            if len(cand) != 1:
+                continue
+            ds = fs.files[cand[0]]._walk("data/excitation/transition_density_matrices/steps")
+            if ds is None:
+                continue        # no excited states in this scenario
+            want = [t for t in range(0, steps + 1) if t % td == 0]
+            got = ds.data.tolist()
+            if got != want:
+                msgs.append(f"transition_density_matrices of molecule {mol} (cadence {td}) holds rows labelled {[('unwritten' if x is UNSET else int(x)) for x in got]}, "
+                            f"the cadence asks for {want}")
+    return msgs
+
+
+FRESH_TABLES = [
+    # (print, xyz, data, coordinates, velocities, forces, tdm, molid, steps, excited)
+    (1, 0, 1, 1, 1, 1, 0, [0, 1, 2], 4, False),
+    (3, 2, 2, 2, 3, 5, 0, [0, 2], 12, False),
+    (0, 3, 0, 3, 0, 2, 0, [1], 7, False),
+    (2, 0, 5, 0, 2, 0, 0, [2, 0], 11, False),
+    (5, 1, 3, 5, 5, 3, 0, [0], 10, False),
+    (4, 5, 4, 0, 0, 0, 0, [0, 1], 9, False),
+    (0, 0, 0, 0, 0, 7, 0, [1, 2], 8, False),
+    (7, 4, 1, 4, 1, 1, 0, [0], 5, False),
+    (2, 2, 2, 3, 2, 4, 4, [0, 2], 9, True),
+    (3, 0, 1, 0, 0, 2, 3, [1], 7, True),
+    (0, 0, 0, 0, 0, 0, 0, [0], 3, False),
+    # one stream alone (its sink must exist although every other stream is off)
+    (0, 0, 0, 2, 0, 0, 0, [1], 4, False),
+    (0, 0, 0, 0, 3, 0, 0, [0], 6, False),
+    (0, 0, 2, 0, 0, 0, 0, [2], 4, False),
+    (0, 2, 0, 0, 0, 0, 0, [0], 4, False),
+    (2, 0, 0, 0, 0, 0, 0, [1], 4, False),
+]
+
+
+def table_output(t, ckpt=0):
+    pe, xe, d, c, v, f, td, molid, steps, exc = t
+    out = {"molid": list(molid), "prefix": "p", "print every": pe, "checkpoint every": ckpt, "xyz": xe,
+           "h5": {"data": d, "coordinates": c, "velocities": v, "forces": f, "transition_density_matrices": td, "write_mo": False, "transition_properties": bool(exc)}}
+    return out, steps, exc
+
+
+def interpreted_fresh_runs(repo, cls_name="Molecular_Dynamics_Basic", tables=None):
+    """[(table, messages)] for fresh runs of the engine under every cadence table"""
+    P = Pipeline(repo, cls_name)
+    res = []
+    for t in (tables or FRESH_TABLES):
+        out, steps, exc = table_output(t)
+        fs, ev = P.run(out, steps, excited=exc)
+        msgs = compare_with_spec(fs, out, steps) + compare_more(fs, ev, out, steps)
+        res.append((t, msgs))
+    # the nonadiabatic stream alone: the engine must create the writer and allocate the stream's rows (they are filled by the surface-hopping engine)
+    for c, steps in ((2, 6), (3, 7)):
+        t = (0, 0, 0, 0, 0, 0, 0, [0, 2], steps, True)
+        out, _, _ = table_output(t)
+        out["h5"] = {"nonadiabatic": c}
+        fs, ev = P.run(out, steps, excited=True)
+        msgs = []
+        for mol in out["molid"]:
+            cand = [p for p in fs.files if p.endswith(f".{mol}.h5")]
+            ds = fs.files[cand[0]]._walk("data/nonadiabatic/steps") if len(cand) == 1 else None
+            if ds is None:
+                msgs.append(f"nonadiabatic is the only stream with a positive cadence ({c}): no HDF5 file / no /data/nonadiabatic rows exist for molecule {mol}, the stream is silently lost")
+            elif ds.shape[0] != steps // c + 1:
+                msgs.append(f"nonadiabatic stream of molecule {mol} (cadence {c}, {steps} steps) has {ds.shape[0]} rows allocated, {steps // c + 1} steps are due")
+        res.append((t[:6] + (f"nonadiabatic {c}",) + t[7:], msgs))
+    return res
+
+
+RESUME_TABLES = [
+    # (table, checkpoint cadence)
+    ((3, 2, 2, 2, 3, 5, 0, [0, 2], 10, False), 4),
+    ((2, 3, 3, 1, 2, 4, 0, [1], 9, False), 3),
+    ((1, 0, 2, 3, 0, 2, 4, [0, 2], 9, True), 5),
+]
+
+
+def interpreted_resume_runs(repo, cls_name="Molecular_Dynamics_Basic", tables=None, all_crash_points=True):
+    """Kill-and-resume by value: for every cadence table the uninterrupted run is interpreted once (the real save_checkpoint writes the checkpoint through stand-ins of
+    torch.save / os.replace); at the start of every loop iteration after the first published checkpoint the file system is captured twice -- as written so far, and as a hard
+    kill leaves it in the worst case (every file as of its last flush / close).  From each capture the real run_from_checkpoint is interpreted to the end and every file must
+    equal the file of the uninterrupted run; the screen lines of the resumed session must be the due steps after the checkpoint.  [(table, ckpt cadence, messages, n_resumes)]"""
+    P = Pipeline(repo, cls_name)
+    res = []
+    for t, ck in (tables or RESUME_TABLES):
+        out, steps, exc = table_output(t, ckpt=ck)
+        fs0, ev0 = P.run(out, steps, excited=exc, stub_checkpoint=False, record_iterations=True)
+        ref = fs0.content()
+        ref.pop("p.restart.pt", None)
+        msgs = compare_with_spec(fs0, out, steps) + compare_more(fs0, ev0, out, steps)
+        want_ck = [s for s in range(1, steps + 1) if ck > 0 and s % ck == 0]
+        if [p[0] for p in ev0["published"]] != want_ck:
+            msgs.append(f"checkpoints are published after steps {[p[0] for p in ev0['published']]}, `checkpoint every` = {ck} asks for {want_ck}")
+        n = 0
+        # a hard kill right after a checkpoint has been published (os.replace done): whatever was not flushed before the publish is lost
+        for s_done, _, pess in ev0["published"]:
+            if s_done is None or int(s_done) >= steps:
+                continue
+            n += 1
+            try:
+                fs2, ev2 = P.resume(pess.snapshot(), "p.restart.pt")
+            except Raised as e:
+                msgs.append(f"kill right after the checkpoint of step {s_done} was published: the resumed run raises {str(e)[:120]}")
+                continue
+            got = fs2.content()
+            got.pop("p.restart.pt", None)
+            d = diff_content(ref, got)
+            if d:
+                msgs.append(f"kill right after the checkpoint of step {s_done} was published (files as of their last flush): after run_from_checkpoint the outputs differ from "
+                            f"the uninterrupted run at {d} -- rows written before the checkpoint were not flushed before it was published")
+        # a kill at the start of loop iteration j (steps 1..j completed): the state is the one the uninterrupted run had at that point
+        for j in sorted(ev0.get("at_iter", {})):
+            if j < ck or not any(s <= j for s in want_ck):
+                continue
+            s_done = max(s for s in want_ck if s <= j)
+            written, flushed = ev0["at_iter"][j]
+            for label, start in (("files as written at the kill", written), ("files as of their last flush before the kill", flushed)):
+                n += 1
+                try:
+                    fs2, ev2 = P.resume(start, "p.restart.pt")
+                except Raised as e:
+                    msgs.append(f"kill before step {j + 1} (checkpoint of step {s_done}, {label}): the resumed run raises {str(e)[:120]}")
+                    continue
+                got = fs2.content()
+                got.pop("p.restart.pt", None)
+                d = diff_content(ref, got)
+                if d:
+                    msgs.append(f"kill before step {j + 1} (checkpoint of step {s_done}, {label}): after run_from_checkpoint the outputs differ from the uninterrupted run at {d}")
+                more = [m for m in compare_more(fs2, ev2, out, steps, after=s_done) if m.startswith("screen")]
+                msgs.extend(f"resumed from the checkpoint of step {s_done}: {m}" for m in more)
+                if len(msgs) > 6:
+                    break
+            if len(msgs) > 6:
+                break
+        res.append((t, ck, msgs, n))
+    return res
+
+
+# --------------------------------------------------------------------------------------------------------------------------------------------
+# the nonadiabatic stream at writer level (the surface-hopping engine's own gating is judged by the shape-based rules)
+# --------------------------------------------------------------------------------------------------------------------------------------------
+def interpreted_nonadiabatic_writer(repo, tables=((1, 6), (2, 7), (3, 9), (0, 4), (4, 10))):
+    """HDF5Writer is constructed and opened by interpretation with two excited states and a nonadiabatic cadence c; append_nonadiabatic is called (a) for every step 0..N and
+    (b) only for the due steps -- in both protocols /data/nonadiabatic must hold exactly the multiples of c, each labelled with its step and holding that step's active
+    surface; then a writer reopened with resume=True, step_offset=s on the files of a run that was killed after step j >= s must complete them to the same content.
+    [(cadence, steps, messages)]"""
+    import ast
+    md = repo.mod("seqm/MolecularDynamics.py")
+    res = []
+    for c, N in tables:
+        msgs = []
+        output = {"molid": [0, 2], "prefix": "p", "h5": {"nonadiabatic": c, "data": 0}}
+        ref = None
+        for protocol in ("every step", "due steps only"):
+            fs = FileSystem()
+            w, I, mol = _open_writer(repo, md, fs, output, N, resume=False, step_offset=0)
+            _feed_na(I, md, w, [t for t in range(0, N + 1) if protocol == "every step" or (c > 0 and t % c == 0)])
+            m2 = _na_against_spec(fs, output, c, N)
+            msgs += [f"({protocol}) {x}" for x in m2]
+            if protocol == "every step":
+                ref = fs.content()
+        if c > 0 and not msgs:
+            for s, j in ((c, c), (c, min(N - 1, c + 1)), (1, 2), (2 * c if 2 * c < N else c, N - 1)):
+                if not (0 < s <= j < N):
+                    continue
+                fs = FileSystem()
+                w, I, mol = _open_writer(repo, md, fs, output, N, resume=False, step_offset=0)
+                _feed_na(I, md, w, list(range(0, j + 1)))
+                try:
+                    w2, I2, mol2 = _open_writer(repo, md, fs, output, N, resume=True, step_offset=s)
+                    _feed_na(I2, md, w2, list(range(s + 1, N + 1)))
+                except Raised as e:
+                    msgs.append(f"resume at step {s} after a kill at step {j}: {str(e)[:120]}")
+                    continue
+                d = diff_content(ref, fs.content())
+                if d:
+                    msgs.append(f"resume at step {s} after a kill at step {j}: nonadiabatic rows differ from the uninterrupted run at {d}")
+        res.append((c, N, msgs))
+    return res
+
+
+def _open_writer(repo, md, fs, output, steps, resume, step_offset):
+    stubs = {"h5py.File": lambda path, mode="r", **k: fs.opener(path, mode, **k), "_rotate_existing": lambda *a, **k: None,
+             "_to_np": lambda x: (x.copy() if isinstance(x, np.ndarray) else x), "torch.is_complex": lambda x: False,
+             "active_state_tensor": lambda a, n, dev=None: np.zeros((int(n),), dtype=np.int64) if not isinstance(a, np.ndarray) else a}
+    I = NpSym(repo, stubs=stubs, max_steps=2_000_000)
+    I.construct_instances = True
+    oc = I.call_function(md, md.func("OutputConfig.from_dict"), [ClassRef(md, md.classes["OutputConfig"]), copy.deepcopy(output)])
+    w = I.construct(ClassRef(md, md.classes["HDF5Writer"]), [oc, {"method": "AM1"}, sp.Rational(1, 2)], {})
+    mol = make_molecule(step_offset)
+    I.call_function(md, md.func("HDF5Writer.open"), [w, mol, "p", steps], {"excited_states": NROOTS, "resume": resume, "step_offset": step_offset, "include_initial": step_offset == 0})
+    return w, I, mol
+
+
+def _feed_na(I, md, w, labels):
+    nmol = SPECIES.shape[0]
+    for t in labels:
+        act = np.array([1 + (t + m) % NROOTS for m in range(nmol)], dtype=np.int64)
+        amp = np.array([[sp.Integer(21 * 10 ** 6 + t * 1000 + m * 100 + r) for r in range(NROOTS)] for m in range(nmol)], dtype=object)
+        nac = np.array([[[sp.Integer(22 * 10 ** 6 + t * 1000 + m * 100 + a * 10 + b) for b in range(NROOTS)] for a in range(NROOTS)] for m in range(nmol)], dtype=object)
+        I.call_function(md, md.func("HDF5Writer.append_nonadiabatic"), [w, t], {"active_states": act, "amplitudes": amp, "nac_dot": nac})
+
+
+def _na_against_spec(fs, output, c, N):
+    msgs = []
+    want = [t for t in range(0, N + 1) if c > 0 and t % c == 0]
+    for mol in output["molid"]:
+        cand = [p for p in fs.files if p.endswith(f".{mol}.h5")]
+        g = fs.files[cand[0]]._walk("data/nonadiabatic") if len(cand) == 1 else None
+        if not want:
+            if g is not None and g._walk("steps") is not None and g._walk("steps").data.tolist():
+                msgs.append(f"nonadiabatic stream of molecule {mol} is switched off but holds rows")
+            continue
+        if g is None or g._walk("steps") is None:
+            msgs.append(f"nonadiabatic stream of molecule {mol} has cadence {c} but no /data/nonadiabatic/steps")
+            continue
+        got = g._walk("steps").data.tolist()
+        if got != want:
+            msgs.append(f"nonadiabatic stream of molecule {mol} (cadence {c}, {N} steps) holds rows labelled {[('unwritten' if x is UNSET else int(x)) for x in got]}, "
+                        f"the cadence asks for {want}")
+            continue
+        surf = g._walk("active_surface")
+        if surf is not None:
+            exp = [1 + (t + mol) % NROOTS for t in want]
+            if [int(x) if x is not UNSET else None for x in surf.data.tolist()] != exp:
+                msgs.append(f"nonadiabatic rows of molecule {mol} do not hold the active surface of their labelled steps")
+    return msgs
